@@ -12,6 +12,7 @@
 #include <verif.hpp>
 #include <kernel/runtime.hpp>
 #include <kernel/cubature/dynamic_factory.hpp>
+#include <kernel/cubature/scalar/dynamic_factory.hpp>
 
 #include <array>
 #include <cmath>
@@ -227,10 +228,10 @@ namespace c14
 
   inline const LD& tol() { static const LD t = 1e-12L; return t; }
 
-  template<typename Shape_>
-  Exactness measure(const Rule<Shape_>& rule, int nominal, int probe_up_to)
+  template<typename RuleX_>
+  Exactness measure(const RuleX_& rule, int nominal, int probe_up_to, LD tolv = 1e-12L)
   {
-    typedef Ref<Shape_> R;
+    typedef Ref<typename RuleX_::ShapeType> R;
     constexpr int d = R::dim;
     Exactness ex;
     const int n = rule.get_num_points();
@@ -269,7 +270,7 @@ namespace c14
       }
     }
     ex.weight_err = std::fabs(sw - R::volume()) / R::volume();
-    ex.weights_ok = ex.weight_err <= tol() * std::max<LD>(1.0L, swa / R::volume());
+    ex.weights_ok = ex.weight_err <= tolv * std::max<LD>(1.0L, swa / R::volume());
     // per total degree
     int ach = D;
     for(size_t m = 0; m < monos.size(); ++m)
@@ -279,7 +280,7 @@ namespace c14
       const LD I = R::integral(a);
       const LD scale = std::max(qa[m], std::fabs(I));
       const LD rel = scale > 0.0L ? std::fabs(q[m] - I) / scale : 0.0L;
-      if(rel > tol()) { if(t - 1 < ach) ach = t - 1; }
+      if(rel > tolv) { if(t - 1 < ach) ach = t - 1; }
       if(t <= nominal && rel > ex.worst_rel)
       {
         ex.worst_rel = rel;
@@ -317,7 +318,7 @@ namespace c14
         const LD I = R::integral(a);
         const LD scale = std::max(cqa[m], std::fabs(I));
         const LD rel = scale > 0.0L ? std::fabs(cq[m] - I) / scale : 0.0L;
-        if(rel > tol())
+        if(rel > tolv)
         {
           ex.corner_ok = false;
           ex.corner_mono = "x^" + std::to_string(a[0]) + " y^" + std::to_string(a[1]) + (d > 2 ? " z^" + std::to_string(a[2]) : "");
@@ -335,8 +336,8 @@ namespace c14
     return r;
   }
 
-  template<typename Shape_>
-  bool same_rule(const Rule<Shape_>& a, const Rule<Shape_>& b)
+  template<typename Shape_, typename W_, typename C_, typename P_>
+  bool same_rule(const Rule<Shape_, W_, C_, P_>& a, const Rule<Shape_, W_, C_, P_>& b)
   {
     if(a.get_num_points() != b.get_num_points()) return false;
     for(int i = 0; i < a.get_num_points(); ++i)
@@ -511,6 +512,29 @@ namespace c14
         try { DynamicFactory f{String(name)}; f.create_throw(r2); } catch(const UnknownRule&) { threw = true; }
         c.check(!threw && same_rule(rule, r2), key + " :: create_throw", "create_throw disagrees with create");
       }
+      // re-invocation: creating into a rule that already holds another rule gives exactly the fresh rule
+      {
+        RuleT pre(5, "marker");
+        for(int i = 0; i < 5; ++i) { pre.get_weight(i) = 77.0; for(int j = 0; j < R::dim; ++j) pre.get_coord(i, j) = -33.0; }
+        bool ok2 = DynamicFactory::create(pre, String(name));
+        c.check(ok2 && same_rule(pre, rule) && std::string(pre.get_name()) == std::string(rule.get_name()), key + " :: create-into-filled", "creating into an already filled rule differs from creating into an empty one");
+        bool ok3 = DynamicFactory::create(pre, String(name));
+        c.check(ok3 && same_rule(pre, rule), key + " :: create-twice", "creating the same rule a second time into the same object differs");
+      }
+      // derived objects: clone, move construction, move assignment into a filled rule, factory constructor
+      {
+        RuleT cl = rule.clone();
+        c.check(same_rule(cl, rule) && std::string(cl.get_name()) == std::string(rule.get_name()), key + " :: clone", "clone differs from the rule");
+        RuleT mv(std::move(cl));
+        c.check(same_rule(mv, rule) && std::string(mv.get_name()) == std::string(rule.get_name()) && cl.get_num_points() == 0, key + " :: move-ctor", "move-constructed rule differs (or the source keeps its points)");
+        RuleT tgt(3, "x");
+        tgt = std::move(mv);
+        c.check(same_rule(tgt, rule) && std::string(tgt.get_name()) == std::string(rule.get_name()), key + " :: move-assign", "rule move-assigned into a filled rule differs");
+        bool threw = false;
+        try { RuleT viactor(Cubature::ctor_factory, DynamicFactory{String(name)}); c.check(same_rule(viactor, rule), key + " :: ctor-factory", "Rule(ctor_factory, DynamicFactory) differs"); }
+        catch(const UnknownRule&) { threw = true; }
+        c.check(!threw, key + " :: ctor-factory", "Rule(ctor_factory, DynamicFactory) threw for an advertised name");
+      }
       Exactness ex = measure(rule, nominal, sh.dump ? nominal + 3 : nominal + 1);
       c.count("monomials_checked", monomial_count(R::dim, nominal));
       c.count("points_evaluated", uint64_t(rule.get_num_points()));
@@ -518,6 +542,25 @@ namespace c14
       c.check(ex.worst_rel <= tol(), key + " :: degree", [&]{ std::ostringstream o; o << "nominal degree " << nominal << " not reached: achieved total degree " << ex.achieved_total
         << ", worst monomial " << ex.worst_mono << " rel. error " << (double)ex.worst_rel; return o.str(); });
       c.check(ex.corner_ok, key + " :: tensor-degree", [&]{ return "per-direction monomial " + ex.corner_mono + " not integrated by a hypercube rule of nominal degree " + std::to_string(nominal); });
+      if(std::string(kind) == "base")
+      {
+        // unusual overload: single precision weights / coordinates
+        Rule<Shape_, float, float> rf;
+        bool okf = DynamicFactory::create(rf, String(name));
+        if(c.check(okf && rf.get_num_points() == rule.get_num_points(), key + " :: float-create", "rule with float weights/coordinates is not created or has another point count"))
+        {
+          bool close = true;
+          for(int i = 0; i < rule.get_num_points() && close; ++i)
+          {
+            close = std::fabs(double(rf.get_weight(i)) - double(rule.get_weight(i))) <= 4e-6 * (1.0 + std::fabs(double(rule.get_weight(i))));
+            for(int j = 0; j < R::dim && close; ++j) close = std::fabs(double(rf.get_coord(i, j)) - double(rule.get_coord(i, j))) <= 4e-6 * (1.0 + std::fabs(double(rule.get_coord(i, j))));
+          }
+          c.check(close, key + " :: float-values", "float rule is not the rounded double rule");
+          Exactness exf = measure(rf, nominal, nominal, 2e-5L);
+          c.check(exf.weights_ok && exf.worst_rel <= 2e-5L, key + " :: float-degree", [&]{ std::ostringstream o; o << "float rule misses its nominal degree: worst " << exf.worst_mono << " rel. error " << (double)exf.worst_rel; return o.str(); });
+          c.count("rules_float");
+        }
+      }
       c.outcome(std::string(kind) + " achieved-nominal=" + (ex.achieved_total >= nominal + 1 ? ">=+1" : ex.achieved_total == nominal ? "0" : "<0"));
       if(ex.achieved_total > nominal && std::string(kind) == "base") c.count("base_rules_exceeding_nominal_within_tolerance");
       if(sh.dump) fprintf(stdout, "DUMP\t%s\t%s\t%s\tnominal=%d\tachieved=%d\tworst=%.3Lg\tpoints=%d\n", R::tag(), name.c_str(), std::string(rule.get_name()).c_str(), nominal, ex.achieved_total, ex.worst_rel, rule.get_num_points());
@@ -669,6 +712,14 @@ namespace c14
           if(!ok)
           {
             cc.check(rule.get_num_points() == 0, key + " :: touched", "refused name but the output rule was modified");
+            {
+              RuleT pre(2, "marker");
+              for(int i = 0; i < 2; ++i) { pre.get_weight(i) = 77.0; for(int j = 0; j < R::dim; ++j) pre.get_coord(i, j) = -33.0; }
+              bool ok2 = DynamicFactory::create(pre, String(s));
+              bool same = !ok2 && pre.get_num_points() == 2 && std::string(pre.get_name()) == "marker";
+              for(int i = 0; i < 2 && same; ++i) { same = (pre.get_weight(i) == 77.0); for(int j = 0; j < R::dim && same; ++j) same = (pre.get_coord(i, j) == -33.0); }
+              cc.check(same, key + " :: touched-filled", "refused name but the already filled output rule was modified");
+            }
             bool threw = false;
             try { RuleT r2; DynamicFactory f{String(s)}; f.create_throw(r2); } catch(const UnknownRule&) { threw = true; }
             cc.check(threw, key + " :: create_throw", "create_throw did not throw UnknownRule for a refused name");
@@ -753,6 +804,25 @@ namespace c14
         for(auto& s : ps) probe(c, s, "parameter");
         c.nontrivial(verif::Hash().str(R::tag()).str("param").str(e.name).get());
       }
+      // orders: all base rules created into ONE rule object in reverse / interleaved order, each compared with a fresh creation
+      for(int order = 0; order < 2; ++order)
+      {
+        if(!c.want()) continue;
+        c.desc([&]{ return std::string(R::tag()) + " all base rules created into the same rule object, " + (order == 0 ? "reverse order" : "largest/smallest interleaved, failed creations in between"); });
+        RuleT shared;
+        std::vector<size_t> seq;
+        if(order == 0) for(size_t i = bases.size(); i-- > 0;) seq.push_back(i);
+        else for(size_t i = 0, j = bases.size(); i < j;) { seq.push_back(--j); if(i < j) seq.push_back(i++); }
+        for(size_t i : seq)
+        {
+          bool ok = DynamicFactory::create(shared, String(bases[i].name));
+          RuleT fresh; DynamicFactory::create(fresh, String(bases[i].name));
+          c.check(ok && same_rule(shared, fresh) && std::string(shared.get_name()) == bases[i].name, std::string(R::tag()) + " " + bases[i].name + " :: create-sequence", "rule created after other rules into the same object differs from a fresh one");
+          if(order == 1) { bool bad = DynamicFactory::create(shared, String("no-such-rule:3")); c.check(!bad && same_rule(shared, fresh), std::string(R::tag()) + " " + bases[i].name + " :: failed-create-between", "a refused creation modified the rule"); }
+          c.count("sequence_creations");
+        }
+        c.nontrivial(verif::Hash().str(R::tag()).str("order").pod(order).get());
+      }
       // names of other shapes
       {
         if(c.want())
@@ -773,6 +843,71 @@ namespace c14
     }
   };
 
+
+  // ------------------------------------------------------------------------------------------------
+  // scalar rules through Scalar::DynamicFactory (the interface the tensor / simplex-scalar factories are built on)
+  // ------------------------------------------------------------------------------------------------
+  struct ScalarEnum
+  {
+    struct Entry { std::string name; bool variadic = false; int minp = 0, maxp = 0; std::vector<std::pair<std::string, std::string>> aliases; };
+    std::vector<Entry> entries;
+    struct AliasCollector { Entry& e; void alias(const String& n) { e.aliases.emplace_back(std::string(n), e.name); } void alias(const String& n, int k) { e.aliases.emplace_back(std::string(n), e.name + ":" + std::to_string(k)); } };
+    template<typename F_, bool v_ = (F_::variadic != 0)> struct Fill;
+    template<typename F_> struct Fill<F_, true> { static void go(Entry& e) { e.variadic = true; e.minp = int(F_::min_points); e.maxp = int(F_::max_points); } };
+    template<typename F_> struct Fill<F_, false> { static void go(Entry& e) { e.variadic = false; } };
+    template<typename Factory_> void factory() { Entry e; e.name = std::string(Factory_::name()); Fill<Factory_>::go(e); AliasCollector ac{e}; Factory_::alias(ac); entries.push_back(e); }
+  };
+
+  inline void scalar_run(verif::Ctx& c, Shared& sh)
+  {
+    ScalarEnum en;
+    Scalar::FactoryWrapper::factory(en);
+    std::vector<std::pair<std::string, std::string>> names;   // (name to request, real name)
+    for(auto& e : en.entries)
+    {
+      if(e.variadic) for(int k = e.minp; k <= e.maxp; ++k) names.emplace_back(e.name + ":" + std::to_string(k), e.name + ":" + std::to_string(k));
+      else names.emplace_back(e.name, e.name);
+      for(auto& a : e.aliases) names.emplace_back(a.first, a.second);
+    }
+    for(auto& nm : names)
+    {
+      if(!c.want()) continue;
+      c.desc([&]{ return "scalar rule '" + nm.first + "' through Scalar::DynamicFactory"; });
+      const std::string key = "scalar " + nm.first;
+      Scalar::Rule<> rule;
+      if(!c.check(Scalar::DynamicFactory::create(rule, String(nm.first)), key + " :: create", "advertised scalar rule is not created")) continue;
+      c.check(std::string(rule.get_name()) == nm.second, key + " :: rule-name", [&]{ return "created scalar rule is called '" + std::string(rule.get_name()) + "', expected '" + nm.second + "'"; });
+      // nominal degree: same table; the scalar driver 'midpoint' is the 1D barycentre rule
+      std::string tk = nm.second; if(tk == "midpoint") tk = "barycentre";
+      auto it = sh.table.deg.find(tk);
+      if(!c.check(it != sh.table.deg.end(), key + " :: no-nominal-degree", "scalar rule without row in spec/cubature_degrees.tsv")) continue;
+      const int nominal = it->second;
+      LD sw = 0, worst = 0; int wdeg = -1;
+      for(int i = 0; i < rule.get_num_points(); ++i) sw += LD(rule.get_weight(i));
+      for(int a = 0; a <= nominal; ++a)
+      {
+        LD q = 0, qa = 0;
+        for(int i = 0; i < rule.get_num_points(); ++i) { LD v = LD(rule.get_weight(i)) * std::pow(LD(rule.get_coord(i)), a); q += v; qa += std::fabs(v); }
+        const LD I = (a & 1) ? 0.0L : 2.0L / LD(a + 1);
+        const LD scale = std::max(qa, std::fabs(I));
+        const LD rel = scale > 0 ? std::fabs(q - I) / scale : 0;
+        if(rel > worst) { worst = rel; wdeg = a; }
+      }
+      c.check(std::fabs(sw - 2.0L) <= 2e-12L, key + " :: weight-sum", "scalar weights do not sum to 2");
+      c.check(worst <= tol(), key + " :: degree", [&]{ std::ostringstream o; o << "scalar rule misses nominal degree " << nominal << " at x^" << wdeg << " rel. error " << (double)worst; return o.str(); });
+      // refused neighbours leave a filled rule alone
+      Scalar::Rule<> pre; Scalar::DynamicFactory::create(pre, String(nm.first));
+      for(const std::string& bad : {"zz" + nm.first, nm.first.substr(1), nm.first.substr(0, 3) + "q" + nm.first.substr(3), std::string("tensor:") + nm.first})
+      {
+        bool b = Scalar::DynamicFactory::create(pre, String(bad));
+        c.check(!b && pre.get_num_points() == rule.get_num_points(), key + " :: near-miss", [&]{ return "scalar near-miss name '" + bad + "' accepted or rule modified"; });
+      }
+      c.count("rules_scalar");
+      c.outcome("scalar rule");
+      c.nontrivial(verif::Hash().str("scalar").str(nm.first).get());
+    }
+  }
+
   inline int main_(int argc, char** argv)
   {
     FEAT::Runtime::ScopeGuard guard(argc, argv);
@@ -782,7 +917,9 @@ namespace c14
     spec.rule = "cases = (shape, name) for every name/alias/point count the library's own factory functor enumeration reports for "
       "Simplex<1..3>, Hypercube<1..3>, x prefixes {none, refine:, refine*0..3:}, upper-case spelling, auto-degree:0..max+2 (x refine prefixes); "
       "plus one case per name holding all its edit-distance-1 neighbours, per driver the out-of-range/malformed parameters, per shape the names "
-      "of the other shapes. A positive case is non-trivial when the rule was created and all monomials up to its nominal degree were compared "
+      "of the other shapes; per shape all base rules created into one rule object in reverse / interleaved order; every scalar rule through Scalar::DynamicFactory. "
+      "Every created rule is also created into an already filled rule, cloned, move-constructed, move-assigned into a filled rule, built through Rule(ctor_factory, factory), and (base rules) created with float weights/coordinates; "
+      "every refused name is also tried on a filled rule which must stay untouched. A positive case is non-trivial when the rule was created and all monomials up to its nominal degree were compared "
       "with the closed form (hash = shape+name); a negative case is non-trivial when its whole neighbourhood was probed (hash = shape+seed name).";
     spec.bounds_quick = "all rules, all aliases, refine: and refine*0/1 on every rule, refine*2/3 where points*monomials <= 1.5e8; all negative families";
     spec.bounds_thorough = "as quick, refine*2 and refine*3 on every rule where points*monomials <= 6e9 (excludes only refine*3 / refine*2 of the largest 3D Gauss-Legendre tensor rules)";
@@ -794,6 +931,7 @@ namespace c14
       "refine*k with k > 3 is not generated (point count grows like 4^k / 12^k)"
     };
     spec.deadline_quick_s = 400; spec.deadline_thorough_s = 2400;
+    spec.case_timeout_s = 600;
 
     Shared sh;
     sh.table.load();
@@ -821,6 +959,7 @@ namespace c14
         c.count("degree_table_rows", sh.table.deg.size());
         c.count("distinct_rule_names", keys.size());
       }
+      scalar_run(c, sh);
       s1.run(c, sh); s2.run(c, sh); s3.run(c, sh); h1.run(c, sh); h2.run(c, sh); h3.run(c, sh);
     });
   }
